@@ -147,27 +147,62 @@ class Q:
         return out
 
 
-def dict_pairs(t):
-    """{key term: value term} of a dict display term (also through a 'cont' that is only update()d), with the set of
-    terms merged in by update / ** -> (pairs, extras) or None."""
-    extras = []
-    if t[0] == "cont" and t[2][0] == "dict":
+def dict_pairs(t, depth=0):
+    """{key term: value term} of a dict value however it is put together - a display, dict(k=v, ...), dict(<dict>), a local dict
+    filled by item assignments with constant keys / update()d, `{**a, **b}` - with the list of terms merged in whose keys are not
+    known (a **kwargs parameter)  -> (pairs, extras) or None.  Later entries override earlier ones, as at run time."""
+    if depth > 6 or not isinstance(t, tuple) or not t:
+        return None
+    if t[0] == "cont":
+        base = dict_pairs(t[2], depth + 1)
+        if base is None:
+            return None
+        pairs, extras = dict(base[0]), list(base[1])
+        # (the mutations are a set: item assignments to distinct constant keys commute, anything else is not understood)
+        seen_keys = set()
         for m in t[3]:
             if m[0] == "update" and m[2]:
-                extras.append(m[2][0])
-            elif m[0] == "setitem":
-                return None
+                sub = dict_pairs(m[2][0], depth + 1)
+                if sub is not None and not sub[1]:
+                    pairs.update(sub[0])
+                else:
+                    extras.append(m[2][0])
+            elif m[0] == "setitem" and not m[1] and isinstance(m[2], tuple) and m[2] and m[2][0] == "const" and m[2] not in seen_keys and m[2] not in pairs:
+                seen_keys.add(m[2])
+                pairs[m[2]] = m[3]
             else:
                 return None
-        t = t[2]
+        return pairs, extras
+    if t[0] == "call" and t[1] == "dict":
+        pairs, extras = {}, []
+        if len(t[2]) > 1:
+            return None
+        if t[2]:
+            sub = dict_pairs(t[2][0], depth + 1)
+            if sub is None:
+                return None
+            pairs.update(sub[0])
+            extras += sub[1]
+        for k, v in t[3]:
+            if k is None:
+                sub = dict_pairs(v, depth + 1)
+                if sub is not None and not sub[1]:
+                    pairs.update(sub[0])
+                else:
+                    extras.append(v)
+            else:
+                pairs[("const", k)] = v
+        return pairs, extras
     if t[0] != "dict":
         return None
-    pairs = {}
+    pairs, extras = {}, []
     for k, v in t[1]:
-        if k is None or k == ("const", None) and False:
-            extras.append(v)
-        elif isinstance(k, tuple) and k and k[0] == "star2":
-            extras.append(v)
+        if k is None or (isinstance(k, tuple) and k and k[0] == "star2"):
+            sub = dict_pairs(v, depth + 1)
+            if sub is not None and not sub[1]:
+                pairs.update(sub[0])
+            else:
+                extras.append(v)
         else:
             pairs[k] = v
     return pairs, extras
